@@ -107,6 +107,10 @@ func run(ctx context.Context, output io.Writer, input io.Reader, logError func(e
 		sb.WriteString(statements[len(statements)-1])
 	}
 
+	if err := scanner.Err(); err != nil {
+		return fmt.Errorf("read input: %w", err)
+	}
+
 	if stmt := sb.String(); len(parser.Scan(stmt)) > 0 {
 		sql, err := pql.Compile(letStatements.String() + stmt)
 		if err != nil {
